@@ -211,7 +211,7 @@ func (l *LookupEdgeAdjOut) Process(ctx context.Context, man gdbi.Manager, in gdb
 	go func() {
 		defer close(queryChan)
 		for t := range in {
-			if t.IsSignal() {
+			if t.IsSignal() || t.IsNull() {
 				queryChan <- gdbi.ElementLookup{Ref: t}
 			} else {
 				queryChan <- gdbi.ElementLookup{
@@ -251,7 +251,7 @@ func (l *LookupVertexAdjIn) Process(ctx context.Context, man gdbi.Manager, in gd
 	go func() {
 		defer close(queryChan)
 		for t := range in {
-			if t.IsSignal() {
+			if t.IsSignal() || t.IsNull() {
 				queryChan <- gdbi.ElementLookup{Ref: t}
 			} else {
 				queryChan <- gdbi.ElementLookup{
@@ -290,7 +290,7 @@ func (l *LookupEdgeAdjIn) Process(ctx context.Context, man gdbi.Manager, in gdbi
 	go func() {
 		defer close(queryChan)
 		for t := range in {
-			if t.IsSignal() {
+			if t.IsSignal() || t.IsNull() {
 				queryChan <- gdbi.ElementLookup{Ref: t}
 			} else {
 				queryChan <- gdbi.ElementLookup{
@@ -330,7 +330,7 @@ func (l *InE) Process(ctx context.Context, man gdbi.Manager, in gdbi.InPipe, out
 	go func() {
 		defer close(queryChan)
 		for t := range in {
-			if t.IsSignal() {
+			if t.IsSignal() || t.IsNull() {
 				queryChan <- gdbi.ElementLookup{Ref: t}
 			} else {
 				queryChan <- gdbi.ElementLookup{
@@ -370,7 +370,7 @@ func (l *OutE) Process(ctx context.Context, man gdbi.Manager, in gdbi.InPipe, ou
 	go func() {
 		defer close(queryChan)
 		for t := range in {
-			if t.IsSignal() {
+			if t.IsSignal() || t.IsNull() {
 				queryChan <- gdbi.ElementLookup{Ref: t}
 			} else {
 				queryChan <- gdbi.ElementLookup{
@@ -474,6 +474,11 @@ func (r *Unwind) Process(ctx context.Context, man gdbi.Manager, in gdbi.InPipe, 
 				out <- t
 				continue
 			}
+			if t.IsNull() {
+				//nothing to unwind on a null traveler
+				out <- t
+				continue
+			}
 			v := jsonpath.TravelerPathLookup(t, r.Field)
 			if a, ok := v.([]interface{}); ok {
 				cur := t.GetCurrent()
@@ -543,7 +548,7 @@ func (h *HasLabel) Process(ctx context.Context, man gdbi.Manager, in gdbi.InPipe
 				out <- t
 				continue
 			}
-			if contains(labels, t.GetCurrent().Label) {
+			if cur := t.GetCurrent(); cur != nil && contains(labels, cur.Label) {
 				out <- t
 			}
 		}
@@ -599,7 +604,7 @@ func (h *HasID) Process(ctx context.Context, man gdbi.Manager, in gdbi.InPipe, o
 				out <- t
 				continue
 			}
-			if contains(ids, t.GetCurrentID()) {
+			if !t.IsNull() && contains(ids, t.GetCurrentID()) {
 				out <- t
 			}
 		}
